@@ -198,6 +198,13 @@ def run(ck: Checker):
     check_closed_conn_uncached(ck, 'C13-7')
     # ------------------------------------------------------------------ C13-4
     check_create_bookkeeping(ck, 'C13-4')
+    # the server counts references; it never releases the resources of a hosted value itself -- a value whose count
+    # reaches zero may still be owned by a hosted object that hands it out again (managed_memoryblock(self._blk)); its
+    # shared memory goes when the value itself is collected (C13-5: MemoryBlock's own finaliser)
+    srv_ = mod.cls('Server')
+    rel = [(m_, c_) for m_ in srv_.methods() for c_ in ast.walk(m_.node) if isinstance(c_, ast.Call) and method_of(c_)[1] in ('release', 'unlink', '_finalize', 'close') and method_of(c_)[0] is not None and not (dotted(method_of(c_)[0]) or '').startswith(('self.mutex', 'self.listener', 'self.stop_event', 'conn', 'c', 'util', 'sys', 'self.condition')) and not is_name(method_of(c_)[0], 'conn')]
+    rel = [(m_, c_) for m_, c_ in rel if method_of(c_)[1] in ('release', 'unlink')]
+    ck.ob('C13-5', rel[0][0] if rel else srv_.method('decref'), rel[0][1] if rel else (srv_.method('decref').node.lineno, 'server-side releases'), not rel, 'no Server method releases or unlinks the resources of a hosted value' if not rel else f'{rel[0][0].qualname} L{rel[0][1].lineno}: `{norm_text(rel[0][1])}` — the server releases the resources of a hosted value when its proxy count reaches zero; a value that a hosted object keeps and hands out again (managed_memoryblock(self._blk)) loses its shared memory under its owner: the next proxy refers to a block that is gone')
     srv = mod.cls('Server')
     f = mod.func('managed')
     rets = [n for n in walk_shallow_func(f.node) if isinstance(n, ast.Return)]
@@ -291,4 +298,14 @@ def check_create_bookkeeping(ck: Checker, rid: str):
         if pth is not None:
             ok = False
             ck.ob(rid, f, cfg.nodes[i].ast, False, 'the reference count is (re)set to 0 even when an entry already exists: wrapping the same hosted object again forgets the references held by earlier proxies — dropping one proxy then destroys the object while another still refers to it')
+    # the test-then-initialise of the count entry, and the registration of the object, are one region of the server mutex:
+    # two threads wrapping the same hosted value for the first time at once would otherwise both find the entry absent,
+    # and the later store resets the count the earlier proxy has already incremented
+    from mpsa.flow import held_locks as _held
+
+    held_ = _held(cfg, Scope(f).canon)
+    unlocked = [i for i in (init | set(absent) | store_obj) if i != mk[0].id and 'self.mutex' not in held_.get(i, frozenset())]
+    if unlocked:
+        ok = False
+        ck.ob(rid, f, cfg.nodes[unlocked[0]].ast, False, f'L{cfg.nodes[unlocked[0]].lineno}: the bookkeeping of create() (`{norm_text(cfg.nodes[unlocked[0]].ast)[:50]}`) is outside `self.mutex`: when two threads wrap the same hosted value for the first time at once, both find the count entry absent and the later one resets it — the value is disposed of while a proxy still refers to it')
     ck.ob(rid, f, mk[0].ast, ok, 'object and count entry (0) exist before the proxy constructor takes the first reference' if ok else 'the proxy can be constructed before the object / its count entry is registered (or the entry does not start at 0)')
